@@ -6,11 +6,13 @@ import (
 	"encoding/json"
 	"flag"
 	"fmt"
+	"io"
 	"os"
 	"sort"
 	"strings"
 	"sync"
 
+	"github.com/Syuparn/pangaea/ast"
 	"github.com/Syuparn/pangaea/evaluator"
 	"github.com/Syuparn/pangaea/object"
 	seam "github.com/Syuparn/pangaea/verifseam"
@@ -21,29 +23,30 @@ import (
 
 // SchedResult is what one scheduled child process reports on stdout.
 type SchedResult struct {
-	Mode        string            `json:"mode"` // startup | warm
-	Seed        uint64            `json:"seed"`
-	Run         uint64            `json:"run"`
-	Tape        []uint32          `json:"tape"`
-	Tasks       int               `json:"tasks"`
-	Yields      uint32            `json:"yields"`
-	Switches    []seam.Switch     `json:"switches"`
-	SchedHash   string            `json:"sched_hash"`
-	Races       []seam.RaceRec    `json:"vc_races"`
-	Ops         int               `json:"symtab_ops"`
-	OpsList     []seam.Op         `json:"ops,omitempty"`
-	Deadlock    bool              `json:"deadlock"`
-	SiteHits    map[string]uint32 `json:"site_hits"`
-	AfterWrite  uint32            `json:"switch_after_table_write"`
-	Panics      []string          `json:"panics"`
-	Isolation   []string          `json:"isolation_mismatches"`
-	Programs    []string          `json:"programs"`
-	Fingerprint string            `json:"fingerprint,omitempty"` // startup: built-in objects fingerprint
-	Probes      []string          `json:"probes,omitempty"`
-	RaceBuild   bool              `json:"race_build"`
-	Ties        int               `json:"maporder_ties"`
-	SwitchPerK  uint32            `json:"switch_per_k"`
-	EvalPerK    uint32            `json:"eval_per_k"`
+	Mode          string            `json:"mode"` // startup | warm
+	Seed          uint64            `json:"seed"`
+	Run           uint64            `json:"run"`
+	Tape          []uint32          `json:"tape"`
+	Tasks         int               `json:"tasks"`
+	Yields        uint32            `json:"yields"`
+	Switches      []seam.Switch     `json:"switches"`
+	SchedHash     string            `json:"sched_hash"`
+	Races         []seam.RaceRec    `json:"vc_races"`
+	Ops           int               `json:"symtab_ops"`
+	OpsList       []seam.Op         `json:"ops,omitempty"`
+	Deadlock      bool              `json:"deadlock"`
+	SiteHits      map[string]uint32 `json:"site_hits"`
+	AfterWrite    uint32            `json:"switch_after_table_write"`
+	Panics        []string          `json:"panics"`
+	Isolation     []string          `json:"isolation_mismatches"`
+	Programs      []string          `json:"programs"`
+	Fingerprint   string            `json:"fingerprint,omitempty"` // startup: built-in objects fingerprint
+	Probes        []string          `json:"probes,omitempty"`
+	RaceBuild     bool              `json:"race_build"`
+	Ties          int               `json:"maporder_ties"`
+	FreeformLines int               `json:"freeform_lines"`
+	SwitchPerK    uint32            `json:"switch_per_k"`
+	EvalPerK      uint32            `json:"eval_per_k"`
 }
 
 func schedHash(sw []seam.Switch) string {
@@ -256,7 +259,49 @@ func schedChild(args []string) int {
 			}
 			return o.Inspect()
 		}
+		// half of the tasks run a free-form history over arbitrary built-in properties
+		// (the C06 generator) instead of the symbol-interning programs: any interpreter-wide
+		// state touched by any built-in is then exercised from several tasks at once
+		freeform := make([]bool, k)
+		taskLines := make([][]c06Line, k)
+		soloEval := func(prog ast.Node, c *harness.Callee, env *object.Env) (res harness.Result) {
+			c.Bind(env)
+			defer func() {
+				if r := recover(); r != nil {
+					if r == seam.FuelExhausted {
+						res.Panic = "fuel exhausted"
+						return
+					}
+					res.Panic = fmt.Sprint(r)
+				}
+			}()
+			o := evaluator.Eval(prog, env)
+			res.Obj = o
+			res.Scope = env
+			if e, ok := o.(*object.PanErr); ok {
+				res.Err = e
+			}
+			return
+		}
+		histGen := make([]*c06Check, k)
+		histTape := make([]*tape.Tape, k)
+		for i := 0; i < k; i++ {
+			if t.Chance(1, 2) {
+				freeform[i] = true
+				histGen[i] = &c06Check{it: it, evalHook: soloEval}
+				histTape[i] = tape.New(uint64(t.U32())<<20|uint64(*run), uint64(i))
+				res.Programs[i] = "<free-form history over built-in properties>"
+			}
+		}
+		for i := 0; i < k; i++ {
+			if histGen[i] != nil {
+				histGen[i].initTables(it)
+			}
+		}
+		// the shared IO object must not synchronise tasks behind the program's back
+		it.Global.InjectIO(strings.NewReader(""), io.Discard)
 		var wg sync.WaitGroup
+		cfg.Fuel = 6000000
 		seam.Begin(cfg)
 		for i := 0; i < k; i++ {
 			i := i
@@ -268,6 +313,10 @@ func schedChild(args []string) int {
 						panics[i] = fmt.Sprint(r)
 					}
 				}()
+				if freeform[i] {
+					histGen[i].runHist(*seed, *run, histTape[i], newC06Stats(), &taskLines[i])
+					return
+				}
 				for j, src := range progs[i] {
 					results[i][j] = evalOne(src)
 				}
@@ -283,6 +332,26 @@ func schedChild(args []string) int {
 		}
 		// isolation: each task's results equal its results when run alone
 		for i := range progs {
+			if freeform[i] {
+				// replay the recorded lines alone, in a fresh scope: same results
+				env := object.NewEnclosedEnv(it.Global)
+				for _, l := range taskLines[i] {
+					prog, err := harness.Parse(l.Src)
+					if err != nil {
+						continue
+					}
+					r := soloEval(prog, &harness.Callee{Plan: l.Plan, Limit: 5000}, env)
+					if got := describeResult(r); got != l.Result {
+						if strings.HasPrefix(l.Result, "PANIC") && !strings.Contains(l.Result, "fuel") {
+							res.Panics = append(res.Panics, fmt.Sprintf("task %d line %q: %s", i, l.Src, l.Result))
+						}
+						res.Isolation = append(res.Isolation, fmt.Sprintf("task %d line %q: concurrent=%s alone=%s", i, l.Src, l.Result, got))
+						break
+					}
+				}
+				res.FreeformLines += len(taskLines[i])
+				continue
+			}
 			for j, src := range progs[i] {
 				if strings.HasPrefix(results[i][j], "PANIC") {
 					res.Panics = append(res.Panics, fmt.Sprintf("task %d program %d: %s", i, j, results[i][j]))
